@@ -40,6 +40,18 @@ fn c07_xmlns_6() {
     xmlns_no_panic::<6>();
 }
 
+#[kani::proof]
+#[kani::unwind(9)]
+fn c07_xmlns_7() {
+    xmlns_no_panic::<7>();
+}
+
+#[kani::proof]
+#[kani::unwind(10)]
+fn c07_xmlns_8() {
+    xmlns_no_panic::<8>();
+}
+
 // remove_namespace needs an owned String: its length is kept concrete per harness (symbolic allocation sizes exhaust CBMC's memory here)
 fn remove_ns_no_panic<const N: usize>() {
     let mut v: Vec<u8> = Vec::with_capacity(N);
